@@ -188,6 +188,8 @@ pub enum Verdict {
     ExcludedNonce,
     Rejected,
     VerifierPanic,
+    /// accepted, and the changed proof's context is encoded into the very same public-coin seed elements
+    AcceptedIdenticalSeed,
     Accepted,
 }
 
@@ -241,6 +243,16 @@ pub fn judge<B: FA, H: ElementHasher<BaseField = B>>(base: &Baseline, mutated: &
                     }
                 }
             }
+            {
+                use winter_math::ToElements;
+                let a: Vec<B> = parsed.context.to_elements();
+                let b: Vec<B> = base.proof.context.to_elements();
+                let mut p2 = parsed.clone();
+                p2.context = base.proof.context.clone();
+                if a == b && p2 == base.proof {
+                    return Verdict::AcceptedIdenticalSeed;
+                }
+            }
             Verdict::Accepted
         },
     }
@@ -260,6 +272,12 @@ fn count(v: &Verdict, what: &str, obs: &mut Obs) -> CheckResult {
         Verdict::VerifierPanic => {
             obs.label("verifier-panic");
             obs.nontrivial();
+        },
+        Verdict::AcceptedIdenticalSeed => {
+            return Err(Fail::new(
+                "accepted/context-with-identical-seed-elements",
+                format!("a proof whose context was changed ({what}) is still accepted: both contexts are encoded into the same public-coin seed elements"),
+            ))
         },
         Verdict::Accepted => {
             return Err(Fail::new(
@@ -399,7 +417,7 @@ impl SubCheck for Structured {
 #[derive(Serialize, Deserialize, Clone, Debug)]
 pub struct AdaptCase {
     pub shape: Shape,
-    /// 0 remainder + c*V(x) ; 1 gkr None -> Some ; 2 trailing bytes in the Lagrange OOD block ; 3 other nonces ; 4 surplus node vector in an opening
+    /// 0 remainder + c*V(x) ; 1 gkr None -> Some ; 2 trailing bytes in the Lagrange OOD block ; 3 other nonces ; 4 surplus node vector in an opening ; 5 trace metadata + trailing zero bytes
     pub kind: u8,
     pub c: X,
     pub extra: Vec<u8>,
@@ -432,6 +450,9 @@ fn adapt_one<B: FA, H: ElementHasher<BaseField = B> + Send + Sync>(c: &AdaptCase
         if let Some(a) = &mut shape.aux {
             a.lagrange = true;
         }
+    }
+    if c.kind == 5 {
+        shape.meta_len = 1 + shape.meta_len % 40;
     }
     let Some(base) = baseline::<B, H>(&shape, tier.pick(1 << 15, 1 << 18))? else {
         obs.label("no-baseline");
@@ -522,6 +543,25 @@ fn adapt_one<B: FA, H: ElementHasher<BaseField = B> + Send + Sync>(c: &AdaptCase
             let verdict = judge::<B, H>(&base, &mutated, obs);
             count(&verdict, "ood.lagrange+trailing-bytes", obs)
         },
+        5 => {
+            // trace metadata extended by zero bytes (length prefix fixed up): another context
+            let (Some(lf), Some(mf)) = (base.fields.iter().find(|f| f.path == "context.trace_info.meta.len"), base.fields.iter().find(|f| f.path == "context.trace_info.meta")) else {
+                return Ok(());
+            };
+            if mf.len == 0 || mf.len + 3 > 65535 {
+                return Ok(());
+            }
+            let k = 1 + c.extra.len() % 3;
+            let chunk = fp.elem_bytes - 1;
+            let space = (chunk - mf.len % chunk) % chunk;
+            obs.label(if k <= space { "meta+zeros:inside-last-chunk" } else { "meta+zeros:new-chunk" });
+            let mut mutated = base.bytes.clone();
+            let end = mf.off + mf.len;
+            mutated.splice(end..end, std::iter::repeat(0u8).take(k));
+            mutated[lf.off..lf.off + 2].copy_from_slice(&((mf.len + k) as u16).to_le_bytes());
+            let verdict = judge::<B, H>(&base, &mutated, obs);
+            count(&verdict, "context.trace_info.meta+trailing-zero-bytes", obs)
+        },
         4 => {
             // a batch opening extended by a surplus (empty or filled) vector of authentication nodes:
             // count byte + 1, vector appended, length prefix fixed up
@@ -593,14 +633,14 @@ impl SubCheck for Adaptive {
         40
     }
     fn rule(&self) -> String {
-        "consistency-preserving substitutions computed from the verifier's query positions (obtained by replaying the transcript): the FRI remainder plus c times the vanishing polynomial of the queried last-layer points (whenever the number of distinct last-layer positions is below the remainder size), a GKR proof attached to a proof that does not use one, trailing bytes inside the Lagrange OOD block, other nonces (small offsets, + the field modulus, + twice the modulus, top bit), a surplus empty or filled node vector appended to a trace / constraint / FRI-layer opening with count byte and length prefix fixed up; non-trivial = the substitution was applicable and judged".into()
+        "consistency-preserving substitutions computed from the verifier's query positions (obtained by replaying the transcript): the FRI remainder plus c times the vanishing polynomial of the queried last-layer points (whenever the number of distinct last-layer positions is below the remainder size), a GKR proof attached to a proof that does not use one, trailing bytes inside the Lagrange OOD block, other nonces (small offsets, + the field modulus, + twice the modulus, top bit), a surplus empty or filled node vector appended to a trace / constraint / FRI-layer opening with count byte and length prefix fixed up, the trace metadata extended by one to three zero bytes; non-trivial = the substitution was applicable and judged".into()
     }
     fn required_labels(&self, _t: Tier) -> Vec<String> {
-        vec!["remainder-attack:possible".into()]
+        vec!["remainder-attack:possible".into(), "meta+zeros:inside-last-chunk".into(), "meta+zeros:new-chunk".into()]
     }
     fn strategy(&self, tier: Tier) -> BoxedStrategy<AdaptCase> {
         let p = GenParams { max_log_n: tier.pick(6, 8), max_grinding: 4, fixed: None, allow_aux: true, allow_degenerate: false };
-        (shape_strategy(&p), 0u8..5, any::<u128>().prop_map(X), prop::collection::vec(any::<u8>(), 1..60))
+        (shape_strategy(&p), 0u8..6, any::<u128>().prop_map(X), prop::collection::vec(any::<u8>(), 1..60))
             .prop_map(|(shape, kind, c, extra)| AdaptCase { shape, kind, c, extra })
             .boxed()
     }
